@@ -736,11 +736,25 @@ theorem compat_sound : ∀ (a b : DType F), a.WF → b.WF → GridAligned a → 
                 · left
                   unfold mandatoryCovered at hmc
                   simp only [List.all_eq_true, Bool.or_eq_true, List.contains_eq_mem, decide_eq_true_eq] at hmc
-                  have hk1 : k ∈ ms.map (·.1) := by
+                  have hx : (decide (k ∈ ms.map (·.1)) &&
+                      !(someMandatory (ms.map (·.1)) opt && decide (k ∈ opt))) = true := by
                     rcases hmc k hk with x | x
                     · exact absurd x ho
                     · exact x
-                  have hk2 : k ∉ opt := fun hko => ho (hopt.1 k hko hk)
+                  simp only [Bool.and_eq_true, decide_eq_true_eq, Bool.not_eq_true', Bool.and_eq_false_iff,
+                    decide_eq_false_iff_not] at hx
+                  have hk1 : k ∈ ms.map (·.1) := hx.1
+                  have hk2 : k ∉ opt := by
+                    rcases hx.2 with hsm | hno
+                    · -- all members are optional here: the side condition of the theorem
+                      intro hko
+                      have hall : ∀ k ∈ ms.map (·.1), k ∈ opt := by
+                        unfold someMandatory at hsm
+                        simp only [Bool.not_eq_false', Bool.and_eq_true, List.all_eq_true, List.contains_eq_mem,
+                          decide_eq_true_eq] at hsm
+                        exact hsm.1
+                      exact ho (hopt.1 hall k hko hk)
+                    · exact hno
                   have hk3 := hmand k hk1 hk2
                   obtain ⟨kv, hkv, hkeq⟩ := List.mem_map.1 hk3
                   have := givenKeys_mem fields kv.1 kv.2 hkv (memberInG_ne_none ms kv.1 kv.2 (hmem kv hkv))
